@@ -75,10 +75,16 @@ def parse (s : Str) : PurePath :=
   { root := if n = 0 then 0 else if n = 2 then 2 else 1,
     tail := (splitSlash s).filter keepSeg }
 
+/-- `"/".join(parts)` -/
+def joinSlash : List Seg → Str
+  | [] => []
+  | [s] => s
+  | s :: r => s ++ '/' :: joinSlash r
+
 /-- `str(p)`; the empty relative path prints as `.` -/
 def PurePath.str (p : PurePath) : Str :=
   if p.root = 0 ∧ p.tail = [] then ['.']
-  else List.replicate p.root '/' ++ List.intercalate ['/'] p.tail
+  else List.replicate p.root '/' ++ joinSlash p.tail
 
 /-- `Path(a, b)` / `a.joinpath(b)`: an anchored `b` replaces `a` (`posixpath.join`) -/
 def PurePath.join (a b : PurePath) : PurePath :=
@@ -243,7 +249,15 @@ def errResp : Errno → Resp
   | .EISDIR => .notFound404
   | .ENOTDIR => .crash "NotADirectoryError"
 
-def routes : List Str := ["/lineage".toList, "/script".toList, "/directory".toList]
+def routeLineage : Str := "/lineage".toList
+def routeScript : Str := "/script".toList
+def routeDirectory : Str := "/directory".toList
+
+/-- `app.routes` (`drawing.py:163, 182, 189`) -/
+def routes : List Str := [routeLineage, routeScript, routeDirectory]
+
+/-- `Path("index.html")` (`drawing.py:52`) -/
+def indexHtml : PurePath := { root := 0, tail := ["index.html".toList] }
 
 /-- Python truthiness of `payload.get(k)` for string values -/
 def truthy : Option Str → Option Str
@@ -291,7 +305,7 @@ def dirTarget (w : World) (pl : Payload) : PurePath :=
 
 /-- the static file a GET asks for (`drawing.py:51‑57`) -/
 def getTarget (w : World) (pathInfo : Str) : PurePath :=
-  if pathInfo = ['/'] then w.static.join (parse "index.html".toList)
+  if pathInfo = ['/'] then w.static.join indexHtml
   else w.static.join (parse (stripSlash pathInfo))
 
 /-- The path (as pathlib sees it) that the handler for this request hands to the operating system, if it hands any;
@@ -300,10 +314,29 @@ def accessed (w : World) (rq : Request) : Option PurePath :=
   match rq.method with
   | .GET => some (getTarget w rq.pathInfo)
   | .POST =>
-    if rq.pathInfo = "/directory".toList then some (dirTarget w rq.payload)
+    if rq.pathInfo = routeDirectory then some (dirTarget w rq.payload)
     else if rq.pathInfo ∈ routes then (truthy rq.payload.f).map parse
     else none
   | _ => none
+
+/-- The string the handler passes to `open` / `os.listdir` / `os.stat`: the raw `f` for `/script` and `/lineage`
+    (`helpers.py:31`), `str(...)` of the pathlib path otherwise. -/
+def accessedRaw (w : World) (rq : Request) : Option Str :=
+  match rq.method with
+  | .GET => some (getTarget w rq.pathInfo).str
+  | .POST =>
+    if rq.pathInfo = routeDirectory then some (dirTarget w rq.payload).str
+    else if rq.pathInfo ∈ routes then truthy rq.payload.f
+    else none
+  | _ => none
+
+/-- response `r` carries exactly the data of node `n` -/
+def discloses : Resp → Node → Prop
+  | .fileContent id, .file id' _ => id = id'
+  | .analysis id, .file id' sql => id = id' ∧ sql = true
+  | .analysisError id, .file id' sql => id = id' ∧ sql = false
+  | .listing _ es, .dir ch => es = ch.map (fun kn => (kn.1, kn.2.isDir))
+  | _, _ => False
 
 def respondGet (w : World) (pathInfo : Str) : Resp :=
   let t := (getTarget w pathInfo).str
@@ -329,7 +362,7 @@ def readScript (w : World) (f : Str) (k : Nat × Bool → Resp) : Resp :=
 def respondPost (allowed : World → Payload → Bool) (w : World) (route : Str) (pl : Payload) : Resp :=
   if route ∉ routes then .notFound404
   else if !allowed w pl then .forbidden403
-  else if route = "/directory".toList then
+  else if route = routeDirectory then
     let t := (dirTarget w pl).str
     match osListdir w t with
     | .ok es => .listing t es
@@ -338,7 +371,7 @@ def respondPost (allowed : World → Payload → Bool) (w : World) (route : Str)
     match truthy pl.f with
     | none => .fromPayload
     | some f =>
-      if route = "/script".toList then readScript w f (fun r => .fileContent r.1)
+      if route = routeScript then readScript w f (fun r => .fileContent r.1)
       else readScript w f (fun r => if r.2 then .analysis r.1 else .analysisError r.1)
 
 def respondWith (allowed : World → Payload → Bool) (w : World) (rq : Request) : Resp :=
